@@ -10,6 +10,7 @@ import (
 	"go/token"
 	"go/types"
 	"math/big"
+	"strings"
 
 	"golang.org/x/tools/go/ssa"
 )
@@ -252,10 +253,21 @@ func (p *PX) byteCall(x *ssa.Call, fr *pxFrame, st *pxState) {
 	}
 	sc := x.Call.StaticCallee()
 	if sc == nil {
+		// a dynamic call may fill the buffers it is handed (io.Reader.Read); an
+		// io.Writer's Write must not modify its argument (contract of io.Writer)
+		if !(x.Call.IsInvoke() && x.Call.Method.Name() == "Write") {
+			p.clobberByteArgs(x, fr, st)
+		}
 		return
 	}
 	name := qualifiedFnName(sc)
 	switch name {
+	default:
+		// library code that receives a tracked buffer may write into it
+		// (io.ReadFull, utf8.EncodeRune …): its content is no longer known
+		if !p.w.inPkg(sc) && !strings.HasSuffix(name, ".Write") {
+			p.clobberByteArgs(x, fr, st)
+		}
 	case "bytes.NewBuffer":
 		init := p.byteSeqOf(x.Call.Args[0], fr, st)
 		if init == nil {
@@ -303,6 +315,20 @@ func (p *PX) byteCall(x *ssa.Call, fr *pxFrame, st *pxState) {
 			nb.Oct = append(nb.Oct, windowTerm(v, 8*(n-1-i)))
 		}
 		st.bseq[key] = nb
+	}
+}
+
+// clobberByteArgs: the octets of every tracked sequence passed to x become unknown.
+func (p *PX) clobberByteArgs(x *ssa.Call, fr *pxFrame, st *pxState) {
+	for _, a := range x.Call.Args {
+		if !isByteSlice(a.Type()) {
+			continue
+		}
+		if bs := p.byteSeqOf(a, fr, st); bs != nil {
+			for i := range bs.Oct {
+				bs.Oct[i] = nil
+			}
+		}
 	}
 }
 
